@@ -165,6 +165,8 @@ class Model:
         return a == b
 
     def call(self, name, args):
+        if name not in self.fns:                  # a variable holding a closure value (escaped closure)
+            name = self.env[name][1]
         params, body = self.fns[name]
         for (p, _t), a in zip(params, args):
             self.env[p] = a
@@ -208,6 +210,7 @@ class Model:
                 self.run(s[1])
             elif t == "fn":
                 self.fns[s[1]] = (s[2], s[4])
+                self.env[s[1]] = ("closure", s[1])
             elif t == "return":
                 raise _Ret(self.eval(s[1]))
             elif t == "callstmt":
